@@ -298,7 +298,13 @@ func (c *userCtx) cancel() {
 
 // NewExec prepares an execution. The scenario must have been built for this
 // exec id (tokens carry it): use NextID first.
-func NextID() uint64 { return execSeq.Add(1) & 0xFFFFF }
+func NextID() uint64 {
+	for {
+		if id := execSeq.Add(1) & 0xFFFFF; id != 0 {
+			return id
+		}
+	}
+}
 
 func NewExec(id uint64, p *prog.Program, sc *prog.Scenario, quiet bool) *Exec {
 	x := &Exec{ID: id, Prog: p, Sc: sc, Quiet: quiet}
